@@ -5,48 +5,49 @@ import CodeLimit.Lemmas.ScanBoundsHeaderStarts
 -/
 namespace CL
 
-/-- Python is the only indentation language and has a single header pattern (checked on the
-generated languages) -/
-theorem shipped_python_single : ∀ L ∈ Gen.all.map (·.2), L.python = true → L.pats.length = 1 := by
-  decide
-
-/-- blocks of a shipped language on position-ordered tokens: listed in start order, non-empty,
-inside the tokens; brace blocks have at least two tokens -/
-theorem extractBlocks_sorted (L : Language) (hL : L ∈ Gen.all.map (·.2)) {toks : List Tok}
-    (hp : PosOrdered toks) {hs : List Header} (hhs : extractHeaders L toks = .ok hs)
+/-- blocks of a shipped language are non-empty ranges inside the tokens: brace blocks always,
+Python blocks when the tokens are position-ordered -/
+theorem extractBlocks_wf (L : Language) (hL : L ∈ Gen.all.map (·.2)) {toks : List Tok}
+    (hp : L.python = false ∨ PosOrdered toks) {hs : List Header}
+    (hhs : extractHeaders L toks = .ok hs)
     {bs : List Range} (h : extractBlocks L toks hs = .ok bs) :
-    bs.Pairwise (fun a b => a.s ≤ b.s) ∧ (∀ b ∈ bs, BlockWF toks.length b) ∧
-      (L.python = false → ∀ b ∈ bs, b.s + 1 < b.e) := by
+    ∀ b ∈ bs, BlockWF toks.length b := by
   unfold extractBlocks at h
   split at h
   · next hpy =>
     have hwf := extractHeaders_wf' L hL hhs
-    have hord := extractHeaders_ordered L hL (shipped_python_single L hL hpy) hhs
-    obtain ⟨h1, h2⟩ := pyBlocks_sorted hp (fun x hx => (hwf x hx).1) hord h
-    exact ⟨h1, h2, fun hf => by rw [hpy] at hf; cases hf⟩
-  · exact ⟨getBlocks_sorted hp h, getBlocks_blockWF h, fun _ b hb => (getBlocks_wf h b hb).1⟩
+    rcases hp with hp | hp
+    · rw [hpy] at hp; cases hp
+    · exact pyBlocks_wf hp (fun x hx => (hwf x hx).1) h
+  · exact getBlocks_blockWF h
 
-/-- a reported scope on position-ordered tokens -/
-structure ScopeGood (L : Language) (code : List Tok) (p : Scope × List Range) : Prop where
-  /-- the scope ends after its header start, inside the tokens -/
-  lt : p.1.hdr.rng.s < p.1.blk.e
+/-- a reported scope of a brace language, or of Python on position-ordered tokens -/
+structure ScopeGood (code : List Tok) (p : Scope × List Range) : Prop where
+  /-- the scope ends after its header END, inside the tokens -/
+  lt : p.1.hdr.rng.e < p.1.blk.e
   le : p.1.blk.e ≤ code.length
-  /-- the name token is the first or second header token; in a brace language it lies inside
-  the scope, in Python it may be the token right after a one-token scope -/
-  name : ∃ k, p.1.hdr.rng.s ≤ k ∧ k ≤ p.1.hdr.rng.s + 1 ∧ code[k]? = some p.1.hdr.name ∧
-    p.1.hdr.name.isName = true ∧ (L.python = false → k < p.1.blk.e)
+  /-- the name token is the first or second header token and lies inside the header -/
+  name : ∃ k, p.1.hdr.rng.s ≤ k ∧ k ≤ p.1.hdr.rng.s + 1 ∧ k < p.1.hdr.rng.e ∧
+    code[k]? = some p.1.hdr.name ∧ p.1.hdr.name.isName = true
   /-- every child range starts after the scope's first token, inside the tokens, and ends no
   later than the scope -/
   children : ∀ c ∈ p.2, p.1.hdr.rng.s < c.s ∧ c.s < code.length ∧ c.e ≤ p.1.blk.e
 
+theorem ScopeGood.start_lt {code : List Tok} {p : Scope × List Range} (h : ScopeGood code p) :
+    p.1.hdr.rng.s < p.1.blk.e := by
+  obtain ⟨k, h1, _, h3, _⟩ := h.name
+  have := h.lt
+  omega
+
 theorem buildScopes_good (L : Language) (hL : L ∈ Gen.all.map (·.2)) (all : List Tok)
-    (hp : PosOrdered (filterTokens false all)) {scs : List (Scope × List Range)}
-    (h : buildScopes L all = .ok scs) : ∀ p ∈ scs, ScopeGood L (filterTokens false all) p := by
+    (hp : L.python = false ∨ PosOrdered (filterTokens false all))
+    {scs : List (Scope × List Range)}
+    (h : buildScopes L all = .ok scs) : ∀ p ∈ scs, ScopeGood (filterTokens false all) p := by
   obtain ⟨hs, bs, sc, hhs, hbs, hsc, rfl⟩ := buildScopes_decomp h
   have hwf := extractHeaders_wf' L hL hhs
   have hearly := extractHeaders_early L hL hhs
-  obtain ⟨hsorted, hbwf, hbrace⟩ := extractBlocks_sorted L hL hp hhs hbs
-  have hgood := buildScopes0_good hwf (fun b hb => Nat.le_of_lt (hbwf b hb).1) hsorted hsc
+  have hbwf := extractBlocks_wf L hL hp hhs hbs
+  have hgood := buildScopes0_good hwf (fun b hb => Nat.le_of_lt (hbwf b hb).1) hsc
   obtain ⟨sc', hsc', hok⟩ := buildScopes0_ok hwf (fun b hb => (hbwf b hb).ok)
   rw [hsc] at hsc'; cases hsc'
   have hfl : ∀ s ∈ filterNocl sc (noclTokens all), ScopeOK (filterTokens false all).length s :=
@@ -57,10 +58,8 @@ theorem buildScopes_good (L : Language) (hL : L ∈ Gen.all.map (·.2)) (all : L
   obtain ⟨hhdr, b, hb, hb1, hb2⟩ := hgood p.1 hmem'
   have hbw := hbwf b hb
   refine ⟨by have := hbw.1; omega, hpok.2.2, ?_, ?_⟩
-  · obtain ⟨_, _, _, k, hk1, hk2, _, hk4⟩ := hearly _ hhdr
-    refine ⟨k, hk1, hk2, hk4, (hwf _ hhdr).2.2.1, fun hbr => ?_⟩
-    have := hbrace hbr b hb
-    omega
+  · obtain ⟨_, _, _, k, hk1, hk2, hk3, hk4⟩ := hearly _ hhdr
+    exact ⟨k, hk1, hk2, hk3, hk4, (hwf _ hhdr).2.2.1⟩
   · intro c hc
     obtain ⟨hlt, child, _, rfl, hcont⟩ := hch c hc
     simp only [Scope.contains, Bool.and_eq_true, decide_eq_true_eq] at hcont
@@ -163,9 +162,9 @@ theorem filterTokens_code (kc : Bool) (all : List Tok) :
 
 /-- every measurement is the measurement of a good scope -/
 theorem scanFile_measurements (L : Language) (hL : L ∈ Gen.all.map (·.2)) (all : List Tok)
-    (hp : PosOrdered (filterTokens false all)) {ms : List Measurement}
+    (hp : L.python = false ∨ PosOrdered (filterTokens false all)) {ms : List Measurement}
     (h : scanFile L all = .ok ms) :
-    ∀ m ∈ ms, ∃ p first last, ScopeGood L (filterTokens false all) p ∧
+    ∀ m ∈ ms, ∃ p first last, ScopeGood (filterTokens false all) p ∧
       (filterTokens false all)[p.1.hdr.rng.s]? = some first ∧
       (filterTokens false all)[p.1.blk.e - 1]? = some last ∧
       m.name = p.1.hdr.name.val ∧ (m.sl, m.sc) = (first.line, first.col) ∧
@@ -176,16 +175,17 @@ theorem scanFile_measurements (L : Language) (hL : L ∈ Gen.all.map (·.2)) (al
   intro m hm
   obtain ⟨p, hp', hpm⟩ := measureAll_mem_ok hms m hm
   have hg := buildScopes_good L hL all hp hscs p hp'
+  have hslt := hg.start_lt
   have h1 : p.1.hdr.rng.s < (filterTokens false all).length := by
-    have := hg.lt; have := hg.le; omega
+    have := hg.le; omega
   have hch : ∀ c ∈ p.2, c.s < (filterTokens false all).length := fun c hc => (hg.children c hc).2.1
   obtain ⟨m', first, last, hm', hf, hl, hn, hs, he, hlen⟩ :=
-    measure_spec h1 (by have := hg.lt; omega) hg.le hch
+    measure_spec h1 (by omega) hg.le hch
   rw [hpm] at hm'; cases hm'
   obtain ⟨len, hlen', hle, hpos⟩ := countLines_spec (toks := filterTokens false all) (s := p.1) h1 hg.le hch
   rw [hlen] at hlen'; cases hlen'
   exact ⟨p, first, last, hg, hf, hl, hn, hs, he,
-    hpos hg.lt (fun c hc => (hg.children c hc).1), hle⟩
+    hpos hslt (fun c hc => (hg.children c hc).1), hle⟩
 
 /-- for EVERY token list: each measurement starts at a code token `i`, ends just past a code token
 `j`, is named after a name token at `i` or `i + 1`, and counts at most the distinct lines of
@@ -220,18 +220,15 @@ theorem scanFile_order (L : Language) (hL : L ∈ Gen.all.map (·.2)) (all : Lis
     ms.Pairwise (fun a b => posLt (a.sl, a.sc) (b.sl, b.sc)) := by
   obtain ⟨scs, hscs, hms⟩ := scanFile_decomp h
   have hord := buildScopes_order L hL all hp hhs hdist hscs
-  have hgood := buildScopes_good L hL all hp hscs
+  have hgood := buildScopes_anchored L hL all hscs
   refine measureAll_pairwise hms _ ((List.Pairwise.and_mem.1 hord).imp ?_)
   intro p q ⟨hpm, hqm, hlt⟩ m m' hm hm'
   have start : ∀ r ∈ scs, ∀ x, measure (filterTokens false all) r.1 r.2 = .ok x →
       ∃ first, (filterTokens false all)[r.1.hdr.rng.s]? = some first ∧
         (x.sl, x.sc) = (first.line, first.col) := by
     intro r hr x hx
-    have hg := hgood r hr
-    have h1 : r.1.hdr.rng.s < (filterTokens false all).length := by
-      have := hg.lt; have := hg.le; omega
-    obtain ⟨x', first, _, hx', hf, _, _, hs, _⟩ :=
-      measure_spec h1 (by have := hg.lt; omega) hg.le (fun c hc => (hg.children c hc).2.1)
+    obtain ⟨⟨h1, h2, h3⟩, _, hch⟩ := hgood r hr
+    obtain ⟨x', first, _, hx', hf, _, _, hs, _⟩ := measure_spec h1 h2 h3 hch
     rw [hx] at hx'; cases hx'
     exact ⟨first, hf, hs⟩
   obtain ⟨f1, hf1, hs1⟩ := start p hpm m hm
